@@ -385,8 +385,9 @@ def streams(tier, rng):
         vals = [0] if w1 == 0 else sorted({0, 1, 5, 0x7F, 0x80, 0xFF, 0xBEEF % 256 ** w1, 256 ** w1 - 1, 2 ** (8 * w1 - 1), rng.randrange(256 ** w1)})
         for v in vals:
             other = _good_val(rng, w2)
-            for follow in ([4], [5], [0, v], [0, other], [1] + be(w1, v), [1] + be(w2, other) + [9, 9], [2] + be(w2, other),
-                           [3, w1], [0, v ^ 1]):
+            same_new = [[1] + be(w2, v), [2] + be(w2, v) + [0xFF]] if valid(v, w2) else []   # the same number, octets of the new width
+            for follow in [[4], [5], [0, v], [0, other], [1] + be(w1, v), [1] + be(w2, other) + [9, 9], [2] + be(w2, other),
+                           [3, w1], [0, v ^ 1]] + same_new:
                 cases.append((217, [[v, w1, rng.randrange(6)], [3, w2], follow, [4], [0, v ^ 1], [0, v], [5]]))
     yield "exh_resize_matrix", "exact", cases
     # 6e. buffer sizes: every octet-string length 0..1100 (thorough 0..4200) at every entry point that takes octets
